@@ -356,6 +356,15 @@ func zooGo(e *E, variant int) interface{} {
 			return (*ZStruct)(nil)
 		case "nilptrmap":
 			return (*map[string]int)(nil)
+		case "nilptrtime":
+			// typed nil pointers to types whose String / Error method has a value receiver
+			return (*time.Time)(nil)
+		case "nilptrdur":
+			return (*time.Duration)(nil)
+		case "nilptrstringer":
+			return (*zStringer)(nil)
+		case "nilptrlist":
+			return []interface{}{(*time.Time)(nil), (*zStringer)(nil), (*ZStruct)(nil)}
 		case "outer":
 			o := ZOuter{Name: "o"}
 			for _, i := range idx {
